@@ -86,7 +86,7 @@ func verify(c fox.Context, e *expect, where string) {
 	if c.QueryParam("t") != e.tok || c.QueryParams().Get("t") != e.tok {
 		e.fail("%s: QueryParam(t)=%q QueryParams=%v", where, c.QueryParam("t"), c.QueryParams())
 	}
-	if !strings.Contains(c.Path(), e.tok) && e.shape != "options-star" && e.shape != "static-then-param" {
+	if !strings.Contains(c.Path(), e.tok) && e.shape != "options-star" && e.shape != "static-then-param" && e.shape != "ignored-tsr-static" {
 		e.fail("%s: Path()=%q", where, c.Path())
 	}
 	if c.Method() != e.req.Method || c.Host() != e.req.Host {
@@ -189,9 +189,22 @@ func (w *world) mw(scopeName string) fox.MiddlewareFunc {
 	}
 }
 
-func newWorld(run *kit.Run) *world {
+func newWorld(run *kit.Run) *world { return newWorldWith(run, false) }
+
+// newWorldWith optionally installs, on every scope, a middleware that forwards a CloneWith copy of the context.
+func newWorldWith(run *kit.Run, forward bool) *world {
 	w := &world{run: run}
-	f, err := fox.New(
+	var extra []fox.GlobalOption
+	if forward {
+		extra = append(extra, fox.WithMiddleware(func(next fox.HandlerFunc) fox.HandlerFunc {
+			return func(c fox.Context) {
+				cc := c.CloneWith(c.Writer(), c.Request())
+				defer cc.Close()
+				next(cc)
+			}
+		}))
+	}
+	f, err := fox.New(append(extra,
 		fox.WithNoRouteHandler(w.handler("noroute")),
 		fox.WithNoMethodHandler(w.handler("nomethod")),
 		fox.WithOptionsHandler(w.handler("options")),
@@ -200,7 +213,7 @@ func newWorld(run *kit.Run) *world {
 		fox.WithMiddlewareFor(fox.NoMethodHandler, w.mw("nomethod")),
 		fox.WithMiddlewareFor(fox.OptionsHandler, w.mw("options")),
 		fox.WithMiddlewareFor(fox.RedirectHandler, w.mw("redirect")),
-	)
+	)...)
 	if err != nil {
 		panic(err)
 	}
@@ -214,10 +227,13 @@ func newWorld(run *kit.Run) *world {
 	f.MustHandle("GET", "/r/{tok}/", h, fox.WithRedirectTrailingSlash(true))
 	f.MustHandle("POST", "/m/{tok}", h)
 	f.MustHandle("GET", "/s/static", h)
+	f.MustHandle("GET", "/is/static/", h, fox.WithIgnoreTrailingSlash(true))
+	f.MustHandle("GET", "/x/*{tok}/end", h)
+	f.MustHandle("GET", "/y/*{a}/mid/*{tok}/end/", h, fox.WithIgnoreTrailingSlash(true))
 	return w
 }
 
-var shapes = []string{"direct", "two", "catchall", "host", "ignored-tsr", "redirect", "404", "405", "options", "options-star", "lookup", "lookup-nil", "clonewith", "static-then-param"}
+var shapes = []string{"ignored-tsr-static", "infix", "infix2-tsr", "direct", "two", "catchall", "host", "ignored-tsr", "redirect", "404", "405", "options", "options-star", "lookup", "lookup-nil", "clonewith", "static-then-param"}
 
 type respW struct {
 	h      http.Header
@@ -298,9 +314,18 @@ func (w *world) issue(n int64, shape string) *expect {
 		method, path, e.kind, e.scope = "OPTIONS", "*", "options", fox.OptionsHandler
 	case "static-then-param":
 		path, e.pattern = "/s/static", "/s/static"
+	case "ignored-tsr-static":
+		path, e.pattern = "/is/static", "/is/static/"
+	case "infix":
+		path, e.pattern, e.params = "/x/q/"+tok+"/r/end", "/x/*{tok}/end", []fox.Param{P("tok", "q/"+tok+"/r")}
+	case "infix2-tsr":
+		path, e.pattern, e.params = "/y/a"+tok+"/b/mid/"+tok+"/end", "/y/*{a}/mid/*{tok}/end/", []fox.Param{P("a", "a"+tok+"/b"), P("tok", tok)}
 	}
 	req := &http.Request{Method: method, Host: host, URL: &url.URL{Path: path, RawQuery: "t=" + tok}, Header: http.Header{"X-Token": {tok}},
 		RemoteAddr: fmt.Sprintf("10.%d.%d.%d:%d", (n>>16)&255, (n>>8)&255, n&255, 1000+n%5000), Proto: "HTTP/1.1", ProtoMajor: 1, ProtoMinor: 1}
+	if shape == "ignored-tsr-static" {
+		req.URL.Path = "/is/static"
+	}
 	if shape == "static-then-param" {
 		// the path must still contain the token for the Path() check: use a query-only token and a fixed path
 		req.URL.Path = "/s/static"
@@ -441,9 +466,13 @@ func main() {
 		return
 	}
 	runtime.GOMAXPROCS(1)
-	w := newWorld(run)
-	r := run.Rand(1)
-	n := int64(run.Pick(20000, 1000000))
+	sequential(run, newWorld(run), 0, int64(run.Pick(20000, 1000000)))
+	sequential(run, newWorldWith(run, true), 1<<40, int64(run.Pick(8000, 300000)))
+	run.SetExtra("shape_pairs", fmt.Sprintf("every ordered pair of the %d request shapes is issued back to back at GOMAXPROCS=1 (the second request gets the context just released by the first) before the random phase; repeated on a router whose middleware forwards a CloneWith copy of the context on every scope", len(shapes)))
+}
+
+func sequential(run *kit.Run, w *world, base, n int64) {
+	r := run.Rand(uint64(1 + base>>40))
 	prev := "none"
 	// all ordered pairs of shapes first (every shape right after every other shape), then random order
 	var order []string
@@ -457,7 +486,7 @@ func main() {
 		if int(i) < len(order) {
 			shape = order[i]
 		}
-		e := w.issue(i+1, shape)
+		e := w.issue(base+i+1, shape)
 		w.report(e, prev)
 		run.Case(e.tok, prev != shape)
 		run.Count("shape_"+shape, 1)
@@ -475,7 +504,6 @@ func main() {
 		}
 	}
 	w.checkClones("at the end")
-	run.SetExtra("shape_pairs", fmt.Sprintf("every ordered pair of the %d request shapes is issued back to back at GOMAXPROCS=1 (the second request gets the context just released by the first) before the random phase", len(shapes)))
 }
 
 func concurrent(run *kit.Run) {
